@@ -155,3 +155,16 @@ package ecs
 //@ lemma maskNotRel(a bitMask64, b bitMask256, m bitMask64, n bitMask256) serves C20 :=
 //@   maskRel(a, b) && maskRel(m, n) ==>
 //@     ((exists i uint8 :: m64has(m, i) && !m64has(a, i)) == (exists i uint8 :: m256has(n, i) && !m256has(b, i)))
+
+// newMask: the mask of a list of ids is exactly the set of those ids (filters, maps, exchange
+// masks are built with it).
+//@ func newMask256
+//@   serves C03 C14 C18
+//@   loop 1 invariant bits: forall i uint8 :: m256has(mask, i) == (exists k int :: 0 <= k && k < __idx && ids[k].id == i)
+//@   ensures  bits: forall i uint8 :: m256has(result, i) == (exists k int :: 0 <= k && k < len(ids) && ids[k].id == i)
+
+//@ func newMask64
+//@   serves C03 C14 C18
+//@   requires forall k int :: 0 <= k && k < len(ids) ==> ids[k].id < 64
+//@   loop 1 invariant bits: forall i uint8 :: m64has(mask, i) == (exists k int :: 0 <= k && k < __idx && ids[k].id == i)
+//@   ensures  bits: forall i uint8 :: m64has(result, i) == (exists k int :: 0 <= k && k < len(ids) && ids[k].id == i)
